@@ -134,6 +134,9 @@ def check(case):
                     term_cross.append((sgn * tr, tr, j, slope))
         term_cross.sort()
     expected_stop = bool(term_cross) and accurate
+    te_all = [float(rec.t) for rec in recs]
+    if any(sgn * (b - a_) < 0 for a_, b in zip(te_all, te_all[1:])):
+        viols.append(V("order", "{}: event records are not in the order met along the integration ({}): times {}".format(method, "backward" if backward else "forward", te_all[:8]), sig, **attrs))
     if stopped:
         labels.append("stopped_on_event")
         if not a.success:
